@@ -20,3 +20,8 @@ REG.add(Contract('<ext>', 'SectionProxy.__getitem__',
     ensures=lambda v, old, res: [res == sec_get(v.self, v.key)],
     may_raise=lambda v: [('KeyError', z3.Not(sec_has(v.self, v.key)))],
     external=True, note='configparser.SectionProxy[key]: the value text; KeyError when the option is absent', props=['C18', 'C16']))
+
+REG.add(Contract('<ext>', 'SectionProxy.__contains__',
+    params=[('self', T.Obj('SectionProxy')), ('key', T.Str)], result=T.Bool,
+    ensures=lambda v, old, res: [res == sec_has(v.self, v.key)],
+    external=True, note='`key in section`: option present (parser.has_option)', props=['C16', 'C15']))
